@@ -87,7 +87,8 @@ del SPEC[('contract', 'Sink_handleLog')]; del SPEC[('ghost', 'Sink_handleLog', '
 H = lambda body: '\nvoid H(void)\n{\n' + body + '\n  __CPROVER_assert(0, "VACUITY-CANARY");\n}\n'
 def U(name, spec, emit, targets): return UnitSpec(name=name, tu=TU, filter='tbox::log', more_filters=[(TU, 'LogContent'), (TU, 'AddPrintfFunc@LogAddPrintfFunc'), (TU, 'RemovePrintf@LogRemovePrintfFunc')], spec=spec, rename=R,
     plugins=[StdFunction(), StdVector(), Sync(), Chrono(), StringStreamSink(), OpaqueString(), Syscalls(extra=('localtime_r', 'strftime')), OpaqueTypes({r'^std::map<.*>$': 'v_map', r'^std::_Rb_tree_(const_)?iterator<.*>$': 'long:v_map_it'})],
-    model_headers=['fn_model.h', 'vec_model.h', 'sync_model.h', 'misc_model.h'], emit=emit, targets=targets)
+    model_headers=['fn_model.h', 'vec_model.h', 'sync_model.h', 'misc_model.h'], emit=emit, targets=targets,
+    trusted=['std::map<std::string, int> (Sink::modules_level_) is an oracle for ONE module name (has a threshold / which): the contracts of find, operator[], erase and emplace restate the standard for that key'])
 N = 'tbox::log::Sink::'
 UNITS = [
   U('sink', SPEC, [N + 'filter', N + 'updateTimestampStr', N + 'enable', N + 'disable'], [
